@@ -3,7 +3,10 @@ package p_xbinary
 import (
 	"encoding/binary"
 	"encoding/hex"
+	"encoding/json"
+	"fmt"
 	"os"
+	"path/filepath"
 	"runtime/debug"
 	"strconv"
 	"strings"
@@ -33,6 +36,7 @@ func record15(c Case15, info Info15) {
 	st.AddExtra("short_destination_rejections_checked", info.ShortDst)
 	st.AddExtra("sink_kind_and_fill_level_writes_checked", info.SinkWrites)
 	st.AddExtra("items_checked", int64(info.Items))
+	st.AddExtra("newBuf_results_overwritten_in_place", info.Scribbled)
 }
 
 // mix is a fixed bit mixer used to pick "a value of that bit length" in the enumerations (a pure function of its argument).
@@ -783,7 +787,43 @@ func TestC15WritersExhaustive(t *testing.T) {
 			})
 		}
 	}
-	st.SetExhaustive("writer_histories", map[string]any{"step_alphabet": len(alpha), "depth": depth, "lists": n, "bufio_fill_level_lists": bn, "shards": shards})
+	// copies of a writer: every list of 1..2 steps with all writers of the history (the goroutine's and the inner ones
+	// of the framing destinations) being by-value copies of a base writer that has written nothing / a number / a
+	// string before; and every list of exactly 2 (thorough 2..3) steps through a zero-value writer whose framing
+	// destinations are given a copy of that writer before step 2 (thorough: before step 2 or step 3)
+	cn := int64(0)
+	runW := func(c Case15W) {
+		idx++
+		if idx%shards != shard {
+			return
+		}
+		info, v := Run15W(c)
+		st.Report(t, "TestC15WritersExhaustive", c, v)
+		record15W(c, info)
+		cn++
+	}
+	pres := [][]Item{nil, {{K: KVar, U: 300}}, {{K: KString, D: "6162"}}}
+	forkDepth := vstat.Pick(2, 3)
+	enum.Lists(len(alpha), forkDepth, 0, 1, func(ix []int) {
+		if len(ix) == 0 {
+			return
+		}
+		seq := make([]WStep, len(ix))
+		for i, k := range ix {
+			seq[i] = alpha[k]
+		}
+		if len(ix) <= 2 {
+			for _, pre := range pres {
+				runW(Case15W{Dsts: allDsts, Seqs: [][]WStep{append([]WStep(nil), seq...)}, Pre: pre, Copy: true})
+			}
+		}
+		for at := 1; at < len(seq); at++ {
+			fs := append([]WStep(nil), seq...)
+			fs[at].Fork = true
+			runW(Case15W{Dsts: allDsts, Seqs: [][]WStep{fs}})
+		}
+	})
+	st.SetExhaustive("writer_histories", map[string]any{"step_alphabet": len(alpha), "depth": depth, "lists": n, "bufio_fill_level_lists": bn, "copied_writer_lists": cn, "copied_writer_depth": forkDepth, "shards": shards})
 }
 
 // genDst draws a destination kind; a third are *bufio.Writer of a small drawn size (or the default 4096) pre-filled
@@ -844,11 +884,20 @@ func genCase15W(t *rapid.T, minG, maxG int) Case15W {
 		seq := make([]WStep, n)
 		for j := range seq {
 			seq[j] = WStep{Item: genSmallItem(t), Dst: rapid.IntRange(0, nd-1).Draw(t, "dst")}
+			// the framing destinations are handed a copy of the goroutine's writer as it is at this point
+			seq[j].Fork = rapid.IntRange(0, 9).Draw(t, "fork") == 0
 		}
 		c.Seqs = append(c.Seqs, seq)
 	}
 	if g > 1 {
 		c.P1 = rapid.IntRange(0, 3).Draw(t, "gomaxprocs1") == 0
+	}
+	// a third of the histories: every writer is a by-value copy of a base writer that has written 0..3 items
+	if rapid.IntRange(0, 2).Draw(t, "copiedWriters") == 0 {
+		c.Copy = true
+		for i, n := 0, rapid.IntRange(0, 3).Draw(t, "preItems"); i < n; i++ {
+			c.Pre = append(c.Pre, genSmallItem(t))
+		}
 	}
 	return c
 }
@@ -882,7 +931,9 @@ func record16H(c Case16H, info Info16H) {
 	if info.NonTrivial() {
 		h = c.Hash()
 	}
-	vstat.For("C16").Case(info.NonTrivial(), h, func() any { return c }, info.Classes()...)
+	st := vstat.For("C16")
+	st.Case(info.NonTrivial(), h, func() any { return c }, info.Classes()...)
+	st.AddExtra("history_newBuf_results_overwritten_in_place", int64(info.Scribbled))
 }
 
 // TestC16HistoryExhaustive: every history of 2..3 (thorough 4) rounds over a small alphabet of inputs.
@@ -1061,6 +1112,163 @@ func TestC16RapidConcurrent(t *testing.T) {
 }
 
 // =============================================================================================
+// C16: very long runs of continuation bytes
+
+func record16L(c Case16L, info Info16L) {
+	var h uint64
+	if info.NonTrivial() {
+		h = c.Hash()
+	}
+	vstat.For("C16").Case(info.NonTrivial(), h, func() any { return c }, info.Classes()...)
+}
+
+// inflight leaves the case that is about to run in the replay directory (as a replay file of the given test) and
+// returns the function that removes it again: if the process does not survive the case - the driver then reports
+// signature process-crash with the log - the file that is still there says which case it was and replays it.
+func inflight(prop, test string, c any) (done func()) {
+	if vstat.ReplayPath() != "" {
+		return func() {}
+	}
+	d := os.Getenv("VERIF_REPLAY_DIR")
+	if d == "" {
+		d = "/verif/replays"
+	}
+	d = filepath.Join(d, prop)
+	if os.MkdirAll(d, 0o755) != nil {
+		return func() {}
+	}
+	raw, _ := json.Marshal(c)
+	seed := os.Getenv("VERIF_SHARDSEED")
+	if seed == "" {
+		seed = "0"
+	}
+	b, _ := json.MarshalIndent(vstat.Envelope{Property: prop, Test: test, Seed: seed, Sig: "process-crash",
+		Msg: "the test process did not survive this case (it was running when the process died)", Case: raw}, "", " ")
+	p := filepath.Join(d, fmt.Sprintf("%s-inflight-seed%s.json", test, seed))
+	if os.WriteFile(p, b, 0o644) != nil {
+		return func() {}
+	}
+	return func() { os.Remove(p) }
+}
+
+// TestC16LongRuns: inputs that begin with 2^20 .. 2^26 continuation bytes (1 .. 64 MiB), i.e. a variable-length number
+// that goes on for megabytes - unterminated, terminated, terminated and followed by a body, behind a first group that
+// makes the number non-zero - given to every Unmarshal function. At 2^20 (thorough: up to 2^22) every combination of
+// head x run byte x tail; at the larger sizes four representative ones.
+func TestC16LongRuns(t *testing.T) {
+	st := vstat.For("C16")
+	shard, shards := vstat.Shard()
+	sizes := vstat.Pick([]int{1 << 20, 1 << 23, 3 << 23, 1 << 26}, []int{1 << 20, 1<<21 + 1, 1 << 22, 1 << 23, 1<<24 - 1, 3 << 23, 1 << 25, 1<<26 - 7, 1 << 26})
+	heads := []string{"", "85", "ff"}
+	bs := []int{0x80, 0xff, 0x81}
+	// nothing / a final zero group / the largest final group / a final group and more bytes / a final group and a body of 5
+	tails := []string{"", "00", "7f", "014142", "006162636465"}
+	var cases []Case16L
+	for _, n := range sizes {
+		if n == 1<<20 || (vstat.Thorough() && n <= 1<<22) {
+			for _, h := range heads {
+				for _, b := range bs {
+					for _, tl := range tails {
+						cases = append(cases, Case16L{Head: h, Run: n, B: b, Tail: tl})
+					}
+				}
+			}
+			continue
+		}
+		cases = append(cases, Case16L{Run: n, B: 0x80}, Case16L{Run: n, B: 0x80, Tail: "00"}, Case16L{Run: n, B: 0xff},
+			Case16L{Head: "85", Run: n, B: 0x80, Tail: "006162636465"})
+	}
+	maxRun := 0
+	for _, n := range sizes {
+		maxRun = max(maxRun, n)
+	}
+	ReserveLong(8 + maxRun + 64)
+	ran := int64(0)
+	for i, c := range cases {
+		if i%shards != shard {
+			continue
+		}
+		done := inflight("C16", "TestC16LongRuns", c)
+		info, v := Run16L(c)
+		done()
+		if v != nil {
+			st.Report(t, "TestC16LongRuns", c, v)
+		}
+		record16L(c, info)
+		ran++
+	}
+	st.SetExhaustive("long_continuation_runs", map[string]any{"run_lengths": sizes, "cases": ran, "shards": shards})
+}
+
+// =============================================================================================
+// C16: the first calls of a process
+
+func record16F(c Case16F, info Info16F) {
+	var h uint64
+	if info.NonTrivial() {
+		h = c.Hash()
+	}
+	st := vstat.For("C16")
+	st.Case(info.NonTrivial(), h, func() any { return c }, info.Classes()...)
+	st.AddExtra("first_use_child_processes", int64(info.Children))
+}
+
+// firstUseInputs: small VALID inputs - one-byte, empty and two-byte records, one- and two-group numbers, eight bytes
+// for the fixed-width decoders.
+var firstUseInputs = []string{"0100", "0161", "01ff", "0180", "00", "026162", "05", "7f", "8001", "ff7f", "0102030405060708"}
+
+// TestC16FirstUse: for every Unmarshal function x every small valid input, a fresh process (the test binary itself,
+// re-executed for TestC16FirstUseChild) whose very first library calls are that function on that input, made by 32
+// goroutines at once (and then the other functions); plus, for every function, a fresh process in which 11 goroutines
+// start with that function on 11 different inputs. Each such case runs in `tries` fresh processes.
+func TestC16FirstUse(t *testing.T) {
+	st := vstat.For("C16")
+	shard, shards := vstat.Shard()
+	tries := vstat.EnvInt("VERIF_XBIN_FIRSTUSE_TRIES", vstat.Pick(2, 6))
+	scratch := os.Getenv("VERIF_TMP")
+	if scratch == "" {
+		scratch = t.TempDir()
+	}
+	var cases []Case16F
+	for rot := range decoders16 {
+		for _, in := range firstUseInputs {
+			cases = append(cases, Case16F{C: Case16C{Ins: []Case16{{In: in}}, G: 32, Shared: true, Rot: rot}, Tries: tries})
+		}
+		var all []Case16
+		for _, in := range firstUseInputs {
+			all = append(all, Case16{In: in})
+		}
+		cases = append(cases, Case16F{C: Case16C{Ins: all, G: len(all), Rot: rot}, Tries: tries})
+	}
+	ran := int64(0)
+	for i, c := range cases {
+		if i%shards != shard {
+			continue
+		}
+		info, v, err := Run16F(c, scratch)
+		if err != nil {
+			t.Fatalf("first-use case %+v: %v", c, err)
+		}
+		if v != nil {
+			st.Report(t, "TestC16FirstUse", c, v)
+		}
+		record16F(c, info)
+		ran++
+	}
+	st.SetExhaustive("first_use", map[string]any{"functions": len(decoders16), "inputs": len(firstUseInputs), "cases": ran, "fresh_processes_per_case": tries, "shards": shards})
+}
+
+// TestC16FirstUseChild runs only in a child process of TestC16FirstUse / TestReplay.
+func TestC16FirstUseChild(t *testing.T) {
+	if os.Getenv(FirstUseCaseEnv) == "" {
+		t.Skip("not a first-use child process")
+	}
+	if err := FirstUseChildMain(); err != nil {
+		t.Fatalf("first-use child: %v", err)
+	}
+}
+
+// =============================================================================================
 // C15: byte strings of 256 MiB and more (5-byte prefix), beyond 1 GiB, 2 GiB and 4 GiB
 
 func record15Z(c Case15Z, info Info15Z) {
@@ -1148,6 +1356,26 @@ func TestReplay(t *testing.T) {
 		info, v := Run15Z(c)
 		vstat.For("C15").Report(t, "TestReplay", c, v)
 		record15Z(c, info)
+	case strings.Contains(env.Test, "LongRuns"):
+		var c Case16L
+		if _, err := vstat.LoadReplay(p, &c); err != nil {
+			t.Fatalf("cannot load %s: %v", p, err)
+		}
+		info, v := Run16L(c)
+		vstat.For("C16").Report(t, "TestReplay", c, v)
+		record16L(c, info)
+	case strings.Contains(env.Test, "FirstUse"):
+		var c Case16F
+		if _, err := vstat.LoadReplay(p, &c); err != nil {
+			t.Fatalf("cannot load %s: %v", p, err)
+		}
+		c.Tries = max(c.Tries, 25) // the moment is met by chance: more fresh processes than the search spends per case
+		info, v, err := Run16F(c, t.TempDir())
+		if err != nil {
+			t.Fatalf("first-use case: %v", err)
+		}
+		vstat.For("C16").Report(t, "TestReplay", c, v)
+		record16F(c, info)
 	case strings.Contains(env.Test, "C16RapidConcurrent"):
 		var c Case16C
 		if _, err := vstat.LoadReplay(p, &c); err != nil {
